@@ -160,6 +160,12 @@ def r_edit(prog, tier):
                 continue
             raise Unrecognised('%s: loop over the requested indices not found' % f.fq)
         X = loops[0].ast.target.id
+        # locals that hold the sentence length, measured afresh in every iteration of the request loop
+        for nm2 in sorted(f.locals):
+            dv = name_defs(f, nm2)
+            if dv and all(isinstance(v, ast.AST) and unparse(v) in lens and loops[0].id in cfg.nodes[nid].loops
+                          and cfg.in_every_iteration(loops[0].id, nid) for (nid, v) in dv):
+                lens.append(nm2)
         # effect sites: every statement in the loop that writes a node field or attaches a node
         sites = []
         for n in cfg.eval_nodes():
@@ -594,6 +600,39 @@ def r_labelsplit(prog, tier):
                               unparse(later[0].ast), later[0].lineno)
         obs.append(Ob('R-LABELSPLIT', f.fq, 'rebinding `%s` removes exactly one recorded component' % unparse(n.ast), ok, why,
                       construct='split:' + unparse(n.ast), line=n.lineno))
+    # the position a prefix slice cuts at is the position that was tested
+    posvars = set(nm for nm in f.locals for (_, v_) in name_defs(f, nm) if isinstance(v_, ast.Call)
+                  and isinstance(v_.func, ast.Attribute) and v_.func.attr in ('rfind', 'find', 'index', 'rindex'))
+    for n in rebinds:
+        v = n.ast.value
+        if isinstance(v, ast.Subscript) and unparse(v.value) == L and isinstance(v.slice, ast.Slice) and v.slice.lower is None \
+                and isinstance(v.slice.upper, ast.Name) and v.slice.upper.id in posvars:
+            P = v.slice.upper.id
+            facts = [x[0] for x in facts_at(cfg, n.id)]
+            about_p = [fa for fa in facts if fa[0] == 'cmp' and P in (fa[1], fa[3])]
+            others = sorted(set(q for fa in facts if fa[0] == 'cmp' for q in (fa[1], fa[3]) if q in posvars and q != P))
+            if not about_p and others:
+                obs.append(Ob('R-LABELSPLIT', f.fq, 'the position `%s` the label is cut at is the position that was tested' % P, False,
+                              'the cut `%s` is made at `%s`, the test on the way is about `%s`: a label that has only one of the two '
+                              'separators is cut at -1 or keeps its index' % (unparse(n.ast), P, others[0]),
+                              construct='split-pos:' + P, line=n.lineno))
+    # the head marker is the last character of a label: it is taken off before anything is searched from the right
+    marker = [n for n in rebinds if isinstance(n.ast.value, ast.Subscript) and unparse(n.ast.value) == '%s[:-1]' % L]
+    index_cuts = [n for n in rebinds if isinstance(n.ast.value, ast.Subscript) and isinstance(n.ast.value.slice, ast.Slice)
+                  and isinstance(n.ast.value.slice.upper, ast.Name) and n.ast.value.slice.upper.id in posvars]
+    if marker and index_cuts:
+        late = [c for c in index_cuts if any(m.id in cfg.reach(c.id) for m in marker)]
+        searches = [nid for nm in posvars for (nid, v_) in name_defs(f, nm) if isinstance(v_, ast.Call)
+                    and isinstance(v_.func, ast.Attribute) and v_.func.attr in ('rfind', 'rindex')]
+        late_search = [nid for nid in searches if any(m.id in cfg.reach(nid) for m in marker)]
+        bad = late or late_search
+        obs.append(Ob('R-LABELSPLIT', f.fq, 'the head marker is stripped before the indices are searched from the right', not bad,
+                      'marker strip first' if not bad else
+                      'the head marker is taken off at line %d, after `%s` (line %d): with the marker still there the text behind the '
+                      'last separator is not a number, so `NP-1\'` keeps its co-index in the category'
+                      % (marker[0].lineno, unparse(cfg.nodes[(late_search or [c.id for c in late])[0]].ast)[:40],
+                         cfg.nodes[(late_search or [c.id for c in late])[0]].lineno),
+                      construct='split-order', line=marker[0].lineno))
     # indices must be digits; the search for co-index / gap index uses the formatting separators
     rets = [n for n in walk_own(f.node) if isinstance(n, ast.Return)]
     ob = rets[0].value.id if len(rets) == 1 and isinstance(rets[0].value, ast.Name) else None
@@ -698,6 +737,17 @@ def r_edge(prog, tier):
     if len(calls) != 1:
         raise Unrecognised('root_attach: %d lca calls' % len(calls))
     n, call = calls[0]
+    # every root child is looked at: the loop over the root children is left only by running out of children
+    if n.loops:
+        outer_loop = n.loops[0]
+        for b in cfg.eval_nodes():
+            if b.kind == 'stmt' and isinstance(b.ast, (ast.Break, ast.Return)) and b.loops and b.loops[0] == outer_loop \
+                    and (isinstance(b.ast, ast.Return) or b.loops[-1] == outer_loop):
+                conds = ' and '.join(('' if a.pol else 'not ') + unparse(a.ast) for a in cfg.assumes_at(b.id) if outer_loop in a.loops)
+                obs.append(Ob('R-EDGE', f.fq, 'the loop over the root children looks at every child', False,
+                              '`%s` under `%s` ends the loop over the root children: every child further right stays at the root, '
+                              'although only this one is at the edge of the sentence' % (unparse(b.ast), conds[:80]),
+                              construct='edge-leave:' + conds[:60], line=b.lineno))
     a0, a1 = call.args
     # tree_terms[t_l - 1], tree_terms[t_r - 1]
     idx = []
